@@ -293,6 +293,7 @@ def scan(repo):
                     best = fn
             return best
 
+        known_hash_fields = set(gnames) | {nm for nm, prefs in fnames.items() if any(visible(p, f) for p in prefs)}
         local = {}
         for fn in fns:
             name, s0, b0, b1, (p, pe) = fn
@@ -319,6 +320,11 @@ def scan(repo):
                 init = text[m.end():k]
                 if HT.search(init) or (hfuns and re.search(r"\b(%s)\s*\(" % "|".join(map(re.escape, sorted(hfuns))), init)):
                     names.add(m.group(1))
+                else:
+                    # a copy / reference of a hash-typed name:  let m = self.fn_name_to_idx.clone();
+                    tm = re.search(r"(?<![\w])(\w+)\s*(?:\.\s*(?:%s)\s*\([^()]*\)\s*\??\s*)*$" % "|".join(PASS_METHODS), init.strip())
+                    if tm and tm.group(1) in (known_hash_fields | names):
+                        names.add(m.group(1))
             # accumulator of a fold that starts from a hash container: `.fold(HashMap::new(), |mut acc, x| ..)`
             for m in re.finditer(r"\.\s*fold\s*\(", text):
                 k = m.end()
